@@ -111,3 +111,34 @@ Definition wal_crash_atomic_stmt (fx : fixes) : Prop :=
   forall (maxsz : N) (ops : list wal_op) (i j : nat) (cut : option N),
     0 < maxsz -> Forall valid_op ops -> hd_error ops = Some OReopen ->
     crash_atomic_at fx maxsz ops i j cut.
+
+(* ---------- the abstract log (documented semantics of wal.Log), independent of the implementation ---------- *)
+(* Append accepts a batch iff its ids are consecutive and continue the log (any first id on an empty log) *)
+Definition spec_accepts (acked recs : list record) : bool :=
+  match recs with
+  | [] => true
+  | r0 :: _ =>
+    gap_free recs &&
+    match acked with
+    | [] => true
+    | a :: _ => rid (last acked a) + 1 =? rid r0
+    end
+  end.
+
+(* one step of the abstract log; Trim is a relation: the log may discard any prefix of records with id <= hint,
+   and never discards everything while records above... precisely: never empties a non-empty log *)
+Definition spec_step (acked : list record) (op : wal_op) (acked' : list record) : Prop :=
+  match op with
+  | OAppend recs => acked' = if spec_accepts acked recs then acked ++ recs else acked
+  | OTruncate k => acked' = filter (fun r => rid r <=? k) acked
+  | OTrim k => exists n, acked' = skipn n acked /\ Forall (fun r => rid r <= k) (firstn n acked) /\
+                         (acked <> [] -> acked' <> [])
+  | OReopen => acked' = acked
+  end.
+
+(* result code of the abstract log *)
+Definition spec_rc (acked : list record) (op : wal_op) : Z :=
+  match op with
+  | OAppend recs => if spec_accepts acked recs then 0%Z else 1%Z
+  | _ => 0%Z
+  end.
